@@ -228,7 +228,9 @@ def write_evidence(cid, tier, seed, st, table, wall, capped, new, seen_known, mo
         states=len(st.fps), transitions=st.transitions,
         traces_validated_against_impl=st.executions + st.reruns,
         samples=st.samples[:4] or [dict(note="no sample recorded")],
-        evaluations=st.executions,
+        evaluations=st.executions + st.cases,
+        executions=st.executions,
+        input_cases_inside_executions=st.cases,
         distinct_nontrivial=len(st.loghashes),
         rule=("stateless DFS by re-execution of the real code under a controlled scheduler: every choice "
               "list within the deviation bound of each (harness, parameter) cell is executed once; "
